@@ -93,6 +93,39 @@ func checkC03(w *core.W) {
 		p := p
 		w.Case(func() string { return "history|" + p.Class + " ## branching histories from (" + p.Prog + ")" }, func() {
 			pf, pl := ends(p.V)
+			// history independence: the same derivations are replayed on values rebuilt from source that have
+			// no history (f0: never derived from; fc1: the first derivation of a brand-new copy of p), and must
+			// give the same results as on p (used many times before) and on c1 (child of a much-used parent)
+			// (compiled anew each time: a compiled literal is one constant object, which would share p's history)
+			fresh := func() rel.Value {
+				pe, _ := obs.Compile(p.Prog)
+				if pe == nil {
+					return nil
+				}
+				o := obs.Eval(pe, rel.EmptyScope)
+				if !o.OK() || rel.VerifShape(o.V) != p.Key {
+					return nil
+				}
+				return o.V
+			}
+			_, pKeyed := pairsOf(p.M)
+			// derivations whose result is not a function of the operand's value are not compared: those naming the
+			// first/last enumerated member (enumeration order is not part of the value), and >> on a set that is not keyed
+			comparable := func(d c03Deriv, keyed bool) bool {
+				if strings.Contains(d.src, "first") || strings.Contains(d.src, "last") {
+					return false
+				}
+				return keyed || !strings.Contains(d.src, ">>")
+			}
+			f0 := fresh()
+			var f0f, f0l rel.Value
+			if f0 != nil {
+				f0f, f0l = ends(f0)
+			}
+			f0Keys := map[int]string{}
+			historyFail := func(which, step, got, want string) {
+				w.Fail("wrong", "history-dependent|"+p.Class+"|"+which+"|"+opWord(step), "p = ("+p.Prog+"); "+step, "after the history: "+short(got)+"; on a value without history: "+short(want))
+			}
 			for _, d1 := range ds {
 				o1 := apply(d1, p.V, pf, pl)
 				w.AddTransitions(1)
@@ -101,6 +134,18 @@ func checkC03(w *core.W) {
 				}
 				c1 := c03Live{o1.V, rel.VerifShape(o1.V), strings.ReplaceAll(d1.src, "x", "p")}
 				cf, cl := ends(c1.v)
+				var fc1, fcf, fcl rel.Value
+				c1Keyed := false
+				if m, err := obs.Denote(c1.v); err == nil {
+					_, c1Keyed = pairsOf(m)
+				}
+				if fp := fresh(); fp != nil {
+					ff, fl := ends(fp)
+					if fo1 := apply(d1, fp, ff, fl); fo1.OK() && rel.VerifShape(fo1.V) == c1.shape {
+						fc1 = fo1.V
+						fcf, fcl = ends(fc1)
+					}
+				}
 				var recent []c03Live
 				verify := func(step string) bool {
 					ok := true
@@ -132,10 +177,21 @@ func checkC03(w *core.W) {
 						recent = recent[1:]
 					}
 				}
-				for _, d2 := range ds {
+				for di2, d2 := range ds {
 					o2 := apply(d2, p.V, pf, pl)
 					w.AddTransitions(1)
 					w.Eval(spare(p.Key) || spare(c1.shape))
+					if f0 != nil && comparable(d2, pKeyed) {
+						want, ok := f0Keys[di2]
+						if !ok {
+							want = outcomeKey(apply(d2, f0, f0f, f0l))
+							f0Keys[di2] = want
+						}
+						w.Count("history_comparisons_parent", 1)
+						if got := outcomeKey(o2); got != want {
+							historyFail("parent", "c1 = "+c1.how+"; c2 = "+strings.ReplaceAll(d2.src, "x", "p"), got, want)
+						}
+					}
 					if o2.OK() {
 						if !verify("c2 = " + strings.ReplaceAll(d2.src, "x", "p")) {
 							return
@@ -144,6 +200,12 @@ func checkC03(w *core.W) {
 					}
 					o3 := apply(d2, c1.v, cf, cl)
 					w.AddTransitions(1)
+					if fc1 != nil && comparable(d2, c1Keyed) {
+						w.Count("history_comparisons_child", 1)
+						if got, want := outcomeKey(o3), outcomeKey(apply(d2, fc1, fcf, fcl)); got != want {
+							historyFail("child", "c1 = "+c1.how+"; c3 = "+strings.ReplaceAll(d2.src, "x", "c1"), got, want)
+						}
+					}
 					if o3.OK() {
 						if !verify("c3 = " + strings.ReplaceAll(d2.src, "x", "c1")) {
 							return
@@ -232,6 +294,6 @@ func opWord(step string) string {
 
 var C03 = core.Check{
 	ID: "C03", Level: "model_checking", Fn: checkC03, Rounds: func(string) int { return 2 },
-	Rule:   "branching histories on live values: for every non-empty set state p of the representation space (generation 0 and one generation of operator results, so that slices with spare capacity occur) and every ordered pair (d1,d2) of the derivation alphabet (with / removal at and beyond both ends for every element kind, ++, |, >>, =>, offsets, joins with 2-4 column relations, //seq helpers, ...rest patterns): c1=d1(p), c2=d2(p), c3=d2(c1); the full representation dump of p, c1 and the four most recent results is re-compared after every step; plus the source-level form `let a = P; let b = d1; let c = d2; [a,b,c,b]` against separately evaluated components; non-trivial = p or c1 has spare slice capacity",
+	Rule:   "branching histories on live values: for every non-empty set state p of the representation space (generation 0 and one generation of operator results, so that slices with spare capacity occur) and every ordered pair (d1,d2) of the derivation alphabet (with / removal at and beyond both ends for every element kind, ++, |, >>, =>, offsets, joins with 2-4 column relations, //seq helpers, ...rest patterns): c1=d1(p), c2=d2(p), c3=d2(c1); the full representation dump of p, c1 and the four most recent results is re-compared after every step; every c2 and c3 whose derivation is a function of the operand's value (not those naming the first/last enumerated member, nor >> on a set that is not keyed) is also compared with the same derivation on a value without history (p recompiled from source and never derived from; the first derivation of a brand-new copy of p), so that state shared between a parent and its derivatives outside the dumped representation (index caches) shows; plus the source-level form `let a = P; let b = d1; let c = d2; [a,b,c,b]` against separately evaluated components; non-trivial = p or c1 has spare slice capacity",
 	Assume: []string{"rel.VerifShape (hook) dumps every field a later operation could overwrite: slices with length/capacity flags, offsets, nested values", "only the last four sibling results are re-checked after each step"},
 }
